@@ -327,6 +327,9 @@ class Profiles:
             self._profilesProperties.clear()
             self._rawProfiles.clear()
             del self._profileNames[:]
+            # macros of the removed profiles are gone too
+            self._usedMacros = Profiles._TOKEN_MACROS.copy()
+            self._usedMacros.update(Profiles._MACROS.copy())
         else:
             reset = False
 
